@@ -25,8 +25,12 @@ func init() {
 
 // ---------------------------------------------------------------- wire alphabet
 
-var ruletextToWire = map[rune]string{'中': "Z", '说': "S", '明': "M"}
-var ruletextFromWire = map[string]string{"Z": "中", "S": "说", "M": "明"}
+// "Z" stands for one CJK character. Which one is chosen per text (by a hash of the text, so that equal abstract texts
+// stay equal): the candidates are CJK characters whose code point ends in the byte of a separator of the rule language
+// (U+5927 ', U+4E2C ",", U+4E3D =, U+4E7C |, U+4E5C \) next to the plain U+4E2D - none of them is a separator.
+var ruletextZ = []string{"中", "大", "丬", "丽", "乼", "乜"}
+var ruletextToWire = map[rune]string{'中': "Z", '大': "Z", '丬': "Z", '丽': "Z", '乼': "Z", '乜': "Z", '说': "S", '明': "M"}
+var ruletextFromWire = map[string]string{"S": "说", "M": "明"}
 
 func ruletextSyms(s string) []string {
 	out := make([]string, 0, len(s))
@@ -49,8 +53,17 @@ func ruletextSyms(s string) []string {
 
 func ruletextText(syms []string) string {
 	var b strings.Builder
+	h := uint32(2166136261)
 	for _, s := range syms {
-		if c, ok := ruletextFromWire[s]; ok {
+		for i := 0; i < len(s); i++ {
+			h = (h ^ uint32(s[i])) * 16777619
+		}
+	}
+	z := ruletextZ[h%uint32(len(ruletextZ))]
+	for _, s := range syms {
+		if s == "Z" {
+			b.WriteString(z)
+		} else if c, ok := ruletextFromWire[s]; ok {
 			b.WriteString(c)
 		} else {
 			b.WriteString(s)
@@ -119,10 +132,12 @@ type ruletextSplitPlan struct {
 type ruletextSplitRec struct {
 	In  []string   `json:"in"`
 	Out [][]string `json:"out"`
+	Txt string     `json:"txt"` // the concrete input (for replays; not read by the judge)
 }
 
 func ruletextSplitOne(s string) (rec ruletextSplitRec) {
 	rec.In = ruletextSyms(s)
+	rec.Txt = s
 	defer func() {
 		if p := recover(); p != nil {
 			rec.Out = [][]string{{"!panic: " + fmt.Sprint(p)}}
@@ -189,8 +204,13 @@ func ruletextSplitCmd(args []string) error {
 		for i := 0; i < plan.Rand; i++ {
 			n := rng.Intn(plan.RandLen + 1)
 			var b strings.Builder
+			z := ruletextZ[i%len(ruletextZ)] // the CJK character of this string
 			for j := 0; j < n; j++ {
-				b.WriteString(ra[rng.Intn(len(ra))])
+				if k := rng.Intn(len(ra)); plan.RandAlpha[k] == "Z" {
+					b.WriteString(z)
+				} else {
+					b.WriteString(ra[k])
+				}
 			}
 			w.put(ruletextSplitOne(b.String()))
 		}
@@ -397,6 +417,7 @@ type ruletextCaseOut struct {
 	Panic    string   `json:"panic"`
 	Extract  string   `json:"extract"`
 	XPanic   string   `json:"xpanic"`
+	XChanged string   `json:"xchanged,omitempty"` // what the extractor's result reads after all later calls, if it changed
 	ErrValid bool     `json:"errUtf8"`
 }
 
@@ -494,12 +515,28 @@ func ruletextExplainCmd(args []string) error {
 	r := newLineReader(os.Stdin)
 	w := newLineWriter(os.Stdout)
 	defer w.flush()
+	// results are written at the end: what GetOnlyExplainErr handed out is kept as it is and compared, after all later
+	// calls, with the copy taken at return (the judged one) - the string must be the caller's alone
+	var outs []ruletextCaseOut
+	var held []string
 	for {
 		var c ruletextCase
 		if !r.next(&c) {
 			break
 		}
-		w.put(ruletextRunCase(c))
+		o := ruletextRunCase(c)
+		held = append(held, o.Extract)
+		o.Extract = string(append([]byte(nil), o.Extract...))
+		outs = append(outs, o)
+	}
+	for i := range outs {
+		if held[i] != outs[i].Extract {
+			outs[i].XChanged = string(append([]byte(nil), held[i]...))
+			if outs[i].XChanged == "" {
+				outs[i].XChanged = "(empty)"
+			}
+		}
+		w.put(outs[i])
 	}
 	return nil
 }
